@@ -930,6 +930,9 @@ Proof.
   - destruct (vmux s u); [apply invm_mux_clear_all|]; exact H.
   - destruct (vmux s u); [apply invm_mux_shift|]; exact H.
   - destruct (vmux s u); [apply invm_mux_shift|]; exact H.
+  - destruct (vmsg s m); [|exact H]. unfold step_resize_bus. destruct (bytes <? 0); [exact H|]. destruct (gbytes s m =? bytes); [exact H|].
+    destruct (2 ^ 60 - 1 <? bytes); [exact H|]. destruct (lim <? bytes); [exact H|]. apply invm_resize; exact H.
+  - destruct (vsig s x); exact H.
 Qed.
 
 Lemma invm_init : InvM init.
